@@ -1,1 +1,7 @@
 import BddVerif.Props.C17
+#print axioms B.Props.C17.set_num_vars_safe
+#print axioms B.Props.C17.rename_variables_safe
+#print axioms B.Props.C17.rename_variable_safe
+#print axioms B.Props.C17.transfer_some_iff
+#print axioms B.Props.C17.transfer_name_correspondence
+#print axioms B.Props.C17.kept_canonical_structure
